@@ -60,6 +60,13 @@ def corpus():
     out = []
     # (kept as scenario text; see KNOWN_FINDINGS.txt 'fixed' entries)
     # numeric-looking key names aliasing in the database (fixed 61b11d1): R requests keys named "7" and "007"
+    # single-use / must-follow / value requests CALLED in every order: when the single-use entry is cleaned at the next scan the remaining
+    # entries must keep their own flags (a value edge that inherits "order-only" is never compared again: stale for ever)
+    for ordr in ("rsf", "rfs", "srf", "sfr", "frs", "fsr"):
+        for usedb in (0, 1):
+            out.append(["db %d" % usedb, "rule 0 sig=0 obs=1", "rule 1 sig=0 obs=1", "rule 2 sig=0 obs=1", "rule 4 sig=0 obs=0 req=2 single=0 follow=1 ord=%s" % ordr,
+                        "rule 5 sig=0 obs=0 req=4", "set 0 1", "set 1 1", "set 2 1", "build 5", "set 2 2", "build 5", "set 2 3"] + (["restart"] if usedb else []) +
+                       ["build 5", "set 1 2", "build 5", "set 2 4", "build 4"])
     out.append(["db 1", "name 0 37", "name 1 303037", "rule 0 sig=0 obs=1", "rule 1 sig=0 obs=1", "rule 2 sig=1 obs=0 req=0,1",
                 "set 0 1", "set 1 1", "build 2", "restart", "set 1 4", "build 2"])
     return out
